@@ -278,7 +278,11 @@ def _structure(col, rule="C05.R4"):
 
 
 def check(col: Collector):
-    _readset(col)
-    _never_none(col)
-    _accumulator(col)
-    _structure(col)
+    with col.rule():
+        _readset(col)
+    with col.rule():
+        _never_none(col)
+    with col.rule():
+        _accumulator(col)
+    with col.rule():
+        _structure(col)
